@@ -30,6 +30,7 @@ fn valid_module(t: &mut Tape, budget: i32) -> String {
     budget,
     non_ascii: t.bool(1, 4),
     long_lines: false,
+    long_idents: false,
   };
   gen_module(t, cfg)
 }
